@@ -1,14 +1,12 @@
 CONSTANTS
   Batches = {"b1", "b2"}
   Cfgs = {"t0", "t5"}
-  MaxRuns = 2
+  MaxRuns = 3
   MaxBatchesPerRun = 2
   KeyIncludesConfig = TRUE
   AtomicWrite = TRUE
-  BatchKey <- IdKey
+  BatchKey <- TwinKey
   TolerantLoad = TRUE
 SPECIFICATION Spec
 INVARIANT CacheTransparent
-INVARIANT FinalFilesWhole
-INVARIANT EntriesMatchKeys
 CHECK_DEADLOCK FALSE
